@@ -3,6 +3,7 @@ package props
 import (
 	"encoding/json"
 	"fmt"
+	"sort"
 	"time"
 
 	"github.com/ozontech/seq-db/frac"
@@ -366,6 +367,45 @@ func c14EndToEnd(w *h.W, r *h.Rng, batch int) {
 			}
 			if err := ingest(st, c.Docs, cr, 2); err != nil {
 				lerr = err
+			}
+			if cr.Chance(1, 3) && len(c.Docs) >= 2 {
+				// a partial re-delivery into the same active fraction: some stored documents again plus documents outside the
+				// fraction's current time borders (newer and older), listed newest-first / oldest-first: the borders used for
+				// pruning must follow
+				lo, hi := c.Docs[0].ID.MID, c.Docs[0].ID.MID
+				for _, d := range c.Docs {
+					lo, hi = min(lo, d.ID.MID), max(hi, d.ID.MID)
+				}
+				extra := gen.MakeCorpus(cr, gen.CorpusOpt{N: cr.Range(1, 4), Vocab: 4, MIDSpread: 30000, MaxToks: 2, BaseMID: hi + 1 + uint64(cr.Intn(120000)), Tag: fmt.Sprintf("b%ds%df%dx", batch, si, f)})
+				if cr.Bool() {
+					extra = gen.MakeCorpus(cr, gen.CorpusOpt{N: cr.Range(1, 4), Vocab: 4, MIDSpread: 30000, MaxToks: 2, BaseMID: lo - 30001 - uint64(cr.Intn(120000)), Tag: fmt.Sprintf("b%ds%df%dy", batch, si, f)})
+				}
+				var fresh []*model.Doc
+				for _, d := range extra.Docs {
+					if !seen[d.ID] {
+						seen[d.ID] = true
+						fresh = append(fresh, d)
+					}
+				}
+				sort.Slice(fresh, func(i, j int) bool { return fresh[j].ID.Less(fresh[i].ID) }) // newest first
+				if cr.Bool() {
+					sort.Slice(fresh, func(i, j int) bool { return fresh[i].ID.Less(fresh[j].ID) })
+				}
+				retry := append([]*model.Doc{}, c.Docs[:cr.Range(1, min(len(c.Docs), 3))]...)
+				if cr.Bool() {
+					retry = append(fresh, retry...)
+				} else {
+					retry = append(retry, fresh...)
+				}
+				st.WaitIdle()
+				if err := st.Bulk(retry); err != nil {
+					lerr = err
+				}
+				c.Docs = append(c.Docs, fresh...)
+				for k, v := range extra.Vocab {
+					c.Vocab[k] = append(c.Vocab[k], v...)
+				}
+				w.Count("partial_redeliveries", 1)
 			}
 			st.SealAll()
 			all = append(all, c.Docs...)
